@@ -6,10 +6,12 @@ ALL = [f"C{i:02d}" for i in range(1, 21)]
 NOT_YET = {}
 checks, na = [], []
 for pid in ALL:
-    try:
-        mod = importlib.import_module(f"props.{pid}")
-        e = mod.MANIFEST_ENTRY
-    except (ImportError, AttributeError):
+    if not os.path.exists(os.path.join(os.path.dirname(os.path.dirname(os.path.abspath(__file__))), "props", pid + ".py")):
+        mod = None
+    else:
+        mod = importlib.import_module(f"props.{pid}")       # run with /verif/.venv/bin/python (needs z3)
+    e = getattr(mod, "MANIFEST_ENTRY", None)
+    if e is None:
         na.append({"property_id": pid, "reason": NOT_YET.get(pid, "no contract-based check built for this property yet in this tree of /verif (see DESIGN.md section 8 for the plan); nothing is claimed")})
         continue
     checks.append({
